@@ -280,7 +280,8 @@ def finish(check, tier, base_seed, stats: ShardStats, t0, *, replay_results=None
         if rest:
             violations.append((sig, rest))
 
-    replay_dir = os.path.join(VERIF, "replays")
+    out_root = os.environ.get("PDTVERIF_OUT", VERIF)  # scratch output root for runs against seeded changes
+    replay_dir = os.path.join(out_root, "replays")
     n_viol = 0
     budget = 25 if tier == "quick" else 240
     for sig, rest in violations:
@@ -332,7 +333,7 @@ def finish(check, tier, base_seed, stats: ShardStats, t0, *, replay_results=None
         "wall_s": round(time.time() - t0, 2),
         "violations": n_viol,
     }
-    write_json(os.path.join(VERIF, "evidence", f"{cid}.json"), ev)
+    write_json(os.path.join(out_root, "evidence", f"{cid}.json"), ev)
     print(f"{cid} tier={tier} seed={base_seed} evaluations={stats.evaluations} "
           f"distinct_nontrivial={len(stats.nontrivial_hashes)} violations={n_viol} "
           f"known_hits={sum(known_hits.values())} wall={ev['wall_s']}s")
